@@ -213,6 +213,8 @@ def execute(history, D, workdir, probes, tag="h"):
                 order, uniq, ordering = read_moc(p)
                 os.remove(p)
                 ret = {"kind": "moc", "order": order, "uniq": uniq, "ordering": ordering}
+                if len(uniq) > 20000:       # far more cells than any region of this depth can have
+                    ret = {"kind": "moc", "order": order, "uniq": uniq[:64] + [-len(uniq)], "ordering": ordering}
             elif op == "export_reg":
                 p = os.path.join(workdir, "%s_%d.reg" % (tag, k))
                 if call.get("via") == "mimas":
